@@ -249,8 +249,9 @@ META = {
 # ---- C07 units reused (added after seeded change C06-4 was missed): mutex::lock/unlock hand the lock on through
 # ---- detail::condition_variable wait / wait_until / notify_one (a waiter that leaves wait() must leave the queue; notify_one
 # ---- wakes a queued waiter); these are the C07 units of the same name, run here as well
-_c07 = {"__name__": "c07_reuse"}
-exec(compile(open("/verif/specs/C07/spec.py").read(), "/verif/specs/C07/spec.py", "exec"), _c07)
+_c07 = {"UNITS": [], "VX_NO_REUSE": True, "__name__": "c07_reuse"}
+if not globals().get("VX_NO_REUSE"):     # reuse is never transitive: the other spec is loaded without ITS reuse blocks (no cycles)
+    exec(compile(open("/verif/specs/C07/spec.py").read(), "/verif/specs/C07/spec.py", "exec"), _c07)
 for _u in _c07["UNITS"]:
     if _u.name in ("cv.wait", "cv.wait_until", "cv.notify_one", "cv.notify_all", "cv.abort_all"):
         _u.name = "c07." + _u.name
